@@ -51,6 +51,13 @@ class Verifier(Engine):
             raise Unsupported(f"statement {type(s).__name__}", s)
         self.pending_raises = []
         outs = m(s, st)
+        if self.cur_contract is not None and self.cur_contract.at and not isinstance(s, (ast.If, ast.For, ast.While, ast.With, ast.Try)):
+            hs = self.cur_contract.at.get(ast.unparse(s))
+            if hs:
+                for o in outs:
+                    if o.kind == "normal":
+                        for n_h, h in enumerate(hs):
+                            self.hint(o.st, h, f"at{list(self.cur_contract.at).index(ast.unparse(s))}.{n_h}")
         if self.cur_contract is not None and self.cur_contract.ghost_effects and not isinstance(s, (ast.If, ast.For, ast.While, ast.With, ast.Try)):
             for o in outs:
                 if o.kind == "normal":
@@ -401,7 +408,7 @@ class Verifier(Engine):
                 out.add("$yielded")
         return out
 
-    def written_heap(self, stmts: list[ast.stmt]) -> set[str]:
+    def written_heap(self, stmts: list[ast.stmt], _depth: int = 0) -> set[str]:
         """Heap arrays a block may write: every declared `modifies` entry of the
         current contract (coarse but sound: writes outside it are rejected)."""
         c = self.cur_contract
@@ -418,10 +425,18 @@ class Verifier(Engine):
                     has_write = True
             elif isinstance(node, ast.Call):
                 dotted = ast.unparse(node.func)
-                if dotted in LOG_CALLS or (isinstance(node.func, ast.Name) and (node.func.id in self.builtins or node.func.id in self.specs)):
+                if dotted in LOG_CALLS or (isinstance(node.func, ast.Name) and (node.func.id in self.builtins or node.func.id in self.specs
+                                                                               or node.func.id in ("all", "any"))):
                     continue
                 if isinstance(node.func, ast.Name) and node.func.id in self.contracts and not self.contracts[node.func.id].modifies:
                     continue
+                if isinstance(node.func, ast.Name) and node.func.id not in self.contracts and _depth < 3:
+                    # a helper that is expanded at the call site (single `return <expr>`): it writes what its expression writes
+                    fd = self.find_inlinable(node.func.id)
+                    if fd is not None:
+                        ret = [x for x in fd.body if isinstance(x, ast.Return)][0]
+                        if not self.written_heap([ast.Expr(value=ret.value)], _depth + 1):
+                            continue
                 if isinstance(node.func, ast.Attribute):
                     if node.func.attr in ("append", "extend", "add", "update", "remove", "discard", "clear", "pop"):
                         if to_field(node.func.value):
